@@ -74,26 +74,28 @@ def matrix_inputs(q, R):
 
 
 def build_calls(mname, q, R):
-    """list of (label, fn, input class, thunk, must_reject_when_on)"""
+    """list of (label, fn, input class, thunk, must_reject_when_on); every call twice: arguments positionally and by their documented
+    names (read from the signature)"""
     import xfab.laue
     import xfab.symmetry
     import xfab.tools
+    from ..core import param_names
 
     mod = {"tools": xfab.tools, "laue": xfab.laue}[mname]
     f = 2 * math.pi if mname == "tools" else 1.0
     B = O.b_ref(CELL, f)
-    calls = []
+    raw = []  # (tag, fn label, input class, function object, args, must_reject)
     for label, M, valid in matrix_inputs(q, R):
         c = classify(M)
         assert (c == "valid") == valid and c != "unclear", (q, label, c)
         tag = "%s:q=%s:%s" % (mname, q, label)
-        calls.append((tag, "u_to_euler", label, (lambda M=M: mod.u_to_euler(M)), not valid))
-        calls.append((tag, "u_to_rod", label, (lambda M=M: mod.u_to_rod(M)), not valid))
-        calls.append((tag, "u_to_ubi", label, (lambda M=M: mod.u_to_ubi(M, CELL)), not valid))
+        raw.append((tag, "u_to_euler", label, mod.u_to_euler, (M,), not valid))
+        raw.append((tag, "u_to_rod", label, mod.u_to_rod, (M,), not valid))
+        raw.append((tag, "u_to_ubi", label, mod.u_to_ubi, (M, CELL), not valid))
         if mname == "tools" and label != "nested-list":  # Umis is documented for numpy arrays and does not convert its arguments
             U0 = alph.quat_to_mat((2, 1, 0, -1))
-            calls.append((tag, "Umis.2", label, (lambda M=M: xfab.symmetry.Umis(U0, M, 7)), not valid))
-            calls.append((tag, "Umis.1", label, (lambda M=M: xfab.symmetry.Umis(M, U0, 4)), not valid))
+            raw.append((tag, "Umis.2", label, xfab.symmetry.Umis, (U0, M, 7), not valid))
+            raw.append((tag, "Umis.1", label, xfab.symmetry.Umis, (M, U0, 4), not valid))
         # UBI / UB taking functions: a perturbed U.B is still a legitimate UB; only det < 0 must be rejected
         Mf = np.asarray(M, float)
         UB = Mf @ B
@@ -104,16 +106,38 @@ def build_calls(mname, q, R):
             continue
         if abs(float(np.linalg.det(Mf))) < 0.2:
             continue  # nearly singular perturbed matrices are not meaningful UBIs
-        calls.append((tag, "ubi_to_u", label, (lambda ubi=ubi: mod.ubi_to_u(ubi)), lefth))
-        calls.append((tag, "ubi_to_u_and_eps", label, (lambda ubi=ubi: mod.ubi_to_u_and_eps(ubi, CELL)), lefth))
-        calls.append((tag, "ub_to_u_b", label, (lambda UB=UB: mod.ub_to_u_b(UB)), lefth))
+        raw.append((tag, "ubi_to_u", label, mod.ubi_to_u, (ubi,), lefth))
+        raw.append((tag, "ubi_to_u_and_eps", label, mod.ubi_to_u_and_eps, (ubi, CELL), lefth))
+        raw.append((tag, "ub_to_u_b", label, mod.ub_to_u_b, (UB,), lefth))
+    # valid right-handed UBIs of slightly sheared high-symmetry lattices (shear 1e-6 .. 1e-3 degrees: the small-strain regime) judged
+    # against the unsheared reference cell: the orientation derived inside ubi_to_u_and_eps is a rotation, nothing may be rejected
+    for cell0, ax in (([4.0, 4.0, 4.0, 90.0, 90.0, 90.0], 5), ([3.0, 3.0, 5.0, 90.0, 90.0, 120.0], 5), ([4.0, 4.0, 6.0, 90.0, 90.0, 90.0], 3), ([5.0, 5.0, 5.0, 60.0, 60.0, 60.0], 4)):
+        for dl in (1e-6, 5.7e-5, 2e-4, -5e-4, 1e-3):
+            cs_ = list(cell0)
+            cs_[ax] += dl
+            ubi_s = np.linalg.inv(R @ O.b_ref(cs_, f)) * f
+            tag = "%s:q=%s:sheared(%s%+g)" % (mname, q, cell0, dl)
+            raw.append((tag, "ubi_to_u_and_eps", "sheared", mod.ubi_to_u_and_eps, (ubi_s, cell0), False))
+            raw.append((tag, "ubi_to_u", "sheared", mod.ubi_to_u, (ubi_s,), False))
     # explicit left-handed UBI: two rows of a valid UBI swapped
     ubi = np.linalg.inv(R @ B) * f
     sw = ubi[[1, 0, 2], :]
     tag = "%s:q=%s:rows-swapped" % (mname, q)
-    calls.append((tag, "ubi_to_u", "lefthanded", (lambda: mod.ubi_to_u(sw)), True))
-    calls.append((tag, "ubi_to_u_and_eps", "lefthanded", (lambda: mod.ubi_to_u_and_eps(sw, CELL)), True))
-    calls.append((tag, "ub_to_u_b", "lefthanded", (lambda: mod.ub_to_u_b(np.linalg.inv(sw) * f)), True))
+    raw.append((tag, "ubi_to_u", "lefthanded", mod.ubi_to_u, (sw,), True))
+    raw.append((tag, "ubi_to_u_and_eps", "lefthanded", mod.ubi_to_u_and_eps, (sw, CELL), True))
+    raw.append((tag, "ub_to_u_b", "lefthanded", mod.ub_to_u_b, (np.linalg.inv(sw) * f,), True))
+    calls = []
+    for tag, fn, label, fobj, args, rej in raw:
+        calls.append((tag, fn, label, (lambda fobj=fobj, args=args: fobj(*args)), rej))
+        names = param_names(fobj)
+        if names is not None and len(names) >= len(args):
+            kw = dict(zip(names, args))
+            calls.append((tag + ":by-keyword", fn, label + ":kw", (lambda fobj=fobj, kw=kw: fobj(**kw)), rej))
+            if len(args) > 1:  # keywords in reverse order (and the first argument positional, the rest by name)
+                kw2 = dict(reversed(list(kw.items())))
+                calls.append((tag + ":by-keyword-reversed", fn, label + ":kw-rev", (lambda fobj=fobj, kw2=kw2: fobj(**kw2)), rej))
+                kw3 = dict(list(kw.items())[1:])
+                calls.append((tag + ":first-positional", fn, label + ":kw-rest", (lambda fobj=fobj, a0=args[0], kw3=kw3: fobj(a0, **kw3)), rej))
     return calls
 
 
@@ -133,6 +157,14 @@ def euler_calls(mname):
             e[slot] = bad
             e = tuple(e)
             calls.append(("%s:euler%r" % (mname, e), "euler_to_u", "out[%d]=%g" % (slot, bad), (lambda e=e: mod.euler_to_u(*e)), True))
+    from ..core import param_names
+
+    names = param_names(mod.euler_to_u)
+    if names is not None and len(names) >= 3:
+        for (tag, fn, label, thunk, rej) in list(calls):
+            e = thunk.__defaults__[0]
+            kw = dict(zip(names, e))
+            calls.append((tag + ":by-keyword", fn, label + ":kw", (lambda kw=kw: mod.euler_to_u(**kw)), rej))
     return calls
 
 
@@ -195,8 +227,10 @@ def shared_switch(r):
     import xfab.symmetry
     import xfab.tools
 
-    r.require(xfab.tools.CHECKS is xfab.CHECKS and xfab.laue.CHECKS is xfab.CHECKS and xfab.symmetry.CHECKS is xfab.CHECKS,
-              "switch:shared", "all modules consult the one package-wide switch")
+    # informational only: HOW a module reaches the switch is an implementation detail; that the one documented switch governs every
+    # module is decided by behaviour (every call in every switch state, below)
+    mods = [m for m in (xfab.tools, xfab.laue, xfab.symmetry) if hasattr(m, "CHECKS")]
+    r.extra["modules_holding_the_package_switch_object"] = sum(1 for m in mods if m.CHECKS is xfab.CHECKS)
 
 
 def cases(tier, seed):
